@@ -205,18 +205,22 @@ def dbl_bits(x):
     return struct.unpack('>Q', struct.pack('>d', x))[0]
 
 
+def hexb(x):
+    return x.hex() if x else '_'
+
+
 def dump_value(v):
     """canonical text of a stored value; identical to FR.Cmd.dumpValue in the model"""
     if isinstance(v, bytes):
-        return 'S' + v.hex()
+        return 'S' + hexb(v)
     if isinstance(v, list):
-        return 'L' + ','.join(x.hex() for x in v)
+        return 'L' + ','.join(hexb(x) for x in v)
     if isinstance(v, set):
-        return 'T' + ','.join(x.hex() for x in sorted(v))
+        return 'T' + ','.join(hexb(x) for x in sorted(v))
     if isinstance(v, ZSet):
-        return 'Z' + ','.join('%s=%d' % (m.hex(), dbl_bits(s)) for (s, m) in v._byscore)
+        return 'Z' + ','.join('%s=%d' % (hexb(m), dbl_bits(s)) for (s, m) in v._byscore)
     if isinstance(v, dict):
-        return 'H' + ','.join('%s=%s' % (k.hex(), x.hex()) for k, x in v.items())
+        return 'H' + ','.join('%s=%s' % (hexb(k), hexb(x)) for k, x in v.items())
     return '?' + repr(v)
 
 
